@@ -82,7 +82,8 @@ ASSUMPTIONS = [
     "the recorded transcripts; a conflict raises in the harness)",
 ]
 
-BIG = 8192
+BIG = 2048        # limit of the structurally extreme cases
+BIG2 = 9216       # limit of the F3 shapes (nesting 1700 deep, 4301 digits)
 
 KNOWN_SIGS = {
     "json-decode-escapes:RecursionError",
@@ -383,42 +384,41 @@ def fuzz_cases(tier, rng, thorough):
             yield _case(c, data, rng.choice(chs), c.hint(rng), ["mutation", "mut:" + tag.split("+")[0]])
 
 
-def extreme_inputs(c: Cfg):
+def extreme_inputs(c: Cfg, big):
     """(d) structurally extreme inputs up to the configured limit -> (data, tag).  The limit is BIG here (8 KiB: large
     enough for every shape that makes the libraries misbehave, small enough to be evaluated by vm_compute)."""
-    big = BIG
     f = c.family
     out = []
     if f in (1, 2):
         tail = b"\n" if f == 1 else b""
         out += [(b"[" * 900 + b"]" * 900 + tail, "deep-array-900"), (b'{"a":' * 400 + b"1" + b"}" * 400 + tail, "deep-object-400"),
-                (b"1" * 4300 + b"\n", "digits-4300"), (b'"' + b"a" * (big - 100) + b'"' + tail, "long-string"),
+                (b"1" * (big - 48) + b"\n", "digits-near-limit"), (b'"' + b"a" * (big - 100) + b'"' + tail, "long-string"),
                 (b"[" * (big // 2) + tail, "unclosed-nesting-limit/2"), (b"9" * (big + 10), "digits-over-limit"),
-                (b'"' + b"\\" * 3999 + b'"' + tail, "backslashes"), (b"[" + b"1," * 3000 + b"1]" + tail, "wide-array"),
-                (b"1e" + b"9" * 3000 + b"\n", "huge-exponent"), (b"-" + b"0" * 3000 + b".5\n", "leading-zeros")]
+                (b'"' + b"\\" * 999 + b'"' + tail, "backslashes"), (b"[" + b"1," * 800 + b"1]" + tail, "wide-array"),
+                (b"1e" + b"9" * 1500 + b"\n", "huge-exponent"), (b"-" + b"0" * 1500 + b".5\n", "leading-zeros")]
     if f == 0:
         out += [(b"a" * (big - 1) + c.sep, "line-at-limit"), (b"a" * (big + 5), "line-over-limit-unterminated"),
-                (b"\xff" * 5000 + c.sep, "long-invalid-utf8"), (c.sep * 3000, "many-separators")]
+                (b"\xff" * 1500 + c.sep, "long-invalid-utf8"), (c.sep * 300, "many-separators")]
     if f == 3:
-        out += [(b"\xff" * 3000, "many-frames-ff")]
+        out += [(b"\xff" * 480, "many-frames-ff")]
     if f == 4:
         inner = c.impl[3]
-        deep = b"[" * 900 + b"]" * 900 if inner == b"json" else bytes(3000)
+        deep = b"[" * 400 + b"]" * 400 if inner == b"json" else bytes(900)
         out += [(_b64(deep, bool(c.impl[2]), c.impl[1]) + c.sep, "b64-deep-inner"), (b"A" * (big - 3) + c.sep, "b64-token-at-limit"),
-                (b"=" * 4000 + c.sep, "b64-padding-only"), (b"A" * (big + 9), "b64-over-limit")]
+                (b"=" * 1000 + c.sep, "b64-padding-only"), (b"A" * (big + 9), "b64-over-limit")]
     if f == 5:
-        out += [(b"(" * 6000 + b".", "pickle-marks"), (b"]" * 5000 + b".", "pickle-empty-lists"),
+        out += [(b"(" * 2000 + b".", "pickle-marks"), (b"]" * 2000 + b".", "pickle-empty-lists"),
                 (b"\x80\x04\x8e" + (2 ** 62).to_bytes(8, "little") + b".", "pickle-huge-bytes8"),
-                (b"\x80\x04" + b"]\x94" * 3000 + b"a" * 2999 + b".", "pickle-deep-append"),
+                (b"\x80\x04" + b"]\x94" * 600 + b"a" * 599 + b".", "pickle-deep-append"),
                 (b"I" + b"9" * 5000 + b"\n.", "pickle-long-int")]
     if f == 6:
         comp = zlib.compress if c.impl[0] == b"zlib" else bz2.compress
         inner = c.impl[1]
-        payload = b"[" * 900 + b"]" * 900 if inner == b"json" else (b"]" * 5000 + b"." if inner == b"pickle" else bytes(6000))
-        out += [(comp(payload), "compressed-extreme-inner"), (comp(b"ab" * 4000), "highly-compressible"), (comp(b"x")[:-1] * 50, "repeated-truncated"),
-                (bytes(5000), "zeros")]
+        payload = b"[" * 900 + b"]" * 900 if inner == b"json" else (b"]" * 2000 + b"." if inner == b"pickle" else bytes(2000))
+        out += [(comp(payload), "compressed-extreme-inner"), (comp(b"ab" * 1000), "highly-compressible"), (comp(b"x")[:-1] * 20, "repeated-truncated"),
+                (bytes(1500), "zeros")]
     if f == 7:
-        out += [(b"\xff" + b"a" * 255, "fb-max-frame-over-limit"), (b"\x00" * 5000, "fb-many-empty"), (b"\xff" * 40, "fb-declared-255")]
+        out += [(b"\xff" + b"a" * 255, "fb-max-frame-over-limit"), (b"\x00" * 200, "fb-many-empty"), (b"\xff" * 40, "fb-declared-255")]
     return out
 
 
@@ -428,20 +428,19 @@ def f3_inputs(c: Cfg):
     out = []
     tail = b"\n" if f in (1,) else b""
     if f in (1, 2):
-        out += [(b"[" * 2500 + b"]" * 2500 + tail, "deep-array-2500"), (b'{"a":' * 2500 + b"1" + b"}" * 2500 + tail, "deep-object-2500"),
+        out += [(b"[" * 1700 + b"]" * 1700 + tail, "deep-array-1700"), (b'{"":' * 1700 + b"1" + b"}" * 1700 + tail, "deep-object-1700"),
                 (b"1" * 4301 + b"\n", "digits-4301"), (b"[-" + b"7" * 5000 + b"]" + tail, "digits-5000-in-array")]
     if f == 4 and c.impl[3] == b"json":
-        out += [(_b64(b"[" * 2500 + b"]" * 2500, bool(c.impl[2]), c.impl[1]) + c.sep, "b64-deep-array-2500"),
+        out += [(_b64(b"[" * 1700 + b"]" * 1700, bool(c.impl[2]), c.impl[1]) + c.sep, "b64-deep-array-1700"),
                 (_b64(b"1" * 4301, bool(c.impl[2]), c.impl[1]) + c.sep, "b64-digits-4301")]
     if f == 6 and c.impl[1] == b"json":
         comp = zlib.compress if c.impl[0] == b"zlib" else bz2.compress
-        out += [(comp(b"[" * 2500 + b"]" * 2500), "compressed-deep-array-2500"), (comp(b"1" * 4301), "compressed-digits-4301")]
+        out += [(comp(b"[" * 1700 + b"]" * 1700), "compressed-deep-array-1700"), (comp(b"1" * 4301), "compressed-digits-4301")]
     return out
 
 
-def _big(c: Cfg):
-    """the same configuration with the limit BIG"""
-    big = BIG
+def _big(c: Cfg, big):
+    """the same configuration with the limit [big]"""
     cfg = list(c.cfg)
     if c.family in (0, 4):
         cfg[1] = big
@@ -454,9 +453,9 @@ def _big(c: Cfg):
 
 def extreme_cases(tier, rng, thorough):
     for c0 in CONFIGS:
-        c = _big(c0)
-        for data, tag in extreme_inputs(c):
-            hint = rng.choice([1024, BIG])
+        c = _big(c0, BIG)
+        for data, tag in extreme_inputs(c, BIG):
+            hint = rng.choice([256, BIG])
             chs = [[data]] if len(data) > 6000 else [[data], sc.cuts_to_chunks(data, [len(data) // 3, 2 * len(data) // 3])]
             for ch in (chs if thorough else chs[-1:]):
                 yield _case(c, data, ch, hint, ["extreme", "ext:" + tag], nontrivial=True)
@@ -468,15 +467,15 @@ def f3_cases(tier, rng, thorough):
     marked = set()
     pending = []
     for c0 in CONFIGS:
-        c = _big(c0)
+        c = _big(c0, BIG2)
         for data, tag in f3_inputs(c):
             pending.append((c, data, tag))
     for c, data, tag in pending:
-        yield _case(c, data, [data], BIG, ["extreme", "f3-shape", "ext:" + tag], nontrivial=True)
-    jraw = _big(BY_NAME["jsonraw"])
-    for data, sig in ((b"[" * 2500 + b"]" * 2500, "json-decode-escapes:RecursionError"),
+        yield _case(c, data, [data], BIG2, ["extreme", "f3-shape", "ext:" + tag], nontrivial=True)
+    jraw = _big(BY_NAME["jsonraw"], BIG2)
+    for data, sig in ((b"[" * 1700 + b"]" * 1700, "json-decode-escapes:RecursionError"),
                       (b"1" * 4301 + b"\n", "json-decode-escapes:ValueError:int-max-str-digits")):
-        yield _case(jraw, data, sc.cuts_to_chunks(data, [len(data) // 2]), BIG, ["f3-witness"], known=sig, nontrivial=True)
+        yield _case(jraw, data, sc.cuts_to_chunks(data, [len(data) // 2]), BIG2, ["f3-witness"], known=sig, nontrivial=True)
 
 
 def cases(tier, rng, escalate):
